@@ -71,6 +71,27 @@ def oracle_E(case):
     if flags != (cl == 'L', cl == 'C', cl == 'I'):
         out.append(('is_dovetail/is_containment/is_internal disagree with the specification', cl, flags))
     case['_obs'] = (got1, got2, e._alignment_type, impl.outcome(lambda: e._is_sid1_from()))
+    # the answers follow the line as it is now: ask the roles of the two segments on a free-standing copy, exchange its two
+    # intervals, ask again: the answers are those of a line written with the exchanged intervals
+    def roles(x):
+        def name(v):
+            return getattr(v, 'name', v)
+        return tuple(impl.outcome(f) for f in (lambda: str(name(x.from_segment)), lambda: str(name(x.to_segment)), lambda: str(x.from_orient),
+                                               lambda: str(x.to_orient), lambda: x.is_dovetail(), lambda: x.is_containment()))
+    def norm(t):
+        return tuple(v if v[0] == 'ok' else ('err', v[1][1]) for v in t)
+    t1 = 'E\te\tA%s\t%s%s\t%s\t%s\t%s\t%s\t*' % (o1, n2, o2, b1, e1, b2, e2)
+    t2 = 'E\te\tA%s\t%s%s\t%s\t%s\t%s\t%s\t*' % (o1, n2, o2, b2, e2, b1, e1)
+    r = impl.outcome(lambda: g.Line(t1, version='gfa2', vlevel=1))
+    r2 = impl.outcome(lambda: g.Line(t2, version='gfa2', vlevel=1))
+    if r[0] == 'ok' and r2[0] == 'ok':
+        x = r[1]
+        roles(x)
+        ed = impl.outcome(lambda: (x.set('beg1', r2[1].beg1), x.set('end1', r2[1].end1), x.set('beg2', r2[1].beg2), x.set('end2', r2[1].end2)))
+        if ed[0] == 'ok' and str(x) == t2:
+            got, want = norm(roles(x)), norm(roles(r2[1]))
+            if got != want:
+                out.append(('after its two intervals were exchanged the edge answers for its from/to roles as before the edit', want, got))
     return out
 
 
